@@ -1520,7 +1520,7 @@ def model_req(case):
     d = dict(op=op, t=table_j(case["t"]))
     if "u" in case:
         d["u"] = table_j(case["u"])
-    for k in ("ks", "ko", "new", "select", "negate", "with_index", "cpred", "rows"):
+    for k in ("ks", "ko", "new", "select", "negate", "with_index", "cpred", "rows", "cb"):
         if k in case:
             d[k] = case[k]
     if "columns" in case:
@@ -1680,7 +1680,6 @@ def correspondence(ctx):
     cases += [malformed_case(rng) for _ in range(ctx.budget(500, 6000))]
     cases = [c for c in cases if modelable(c)]
     reps = ctx.driver.batch([model_req(c) for c in cases])
-    corr_spec = Counter()
     for case, rep in zip(cases, reps):
         out["evaluations"] += 1
         real = run_real(case)
@@ -1690,25 +1689,9 @@ def correspondence(ctx):
             bump(out, "real_error", real["err"])
         d = compare_model_real(case, rep, real)
         if d:
-            # The model mirrors the code as it is, including the behaviours listed as known findings.  Where the
-            # implementation and the model differ, the implementation satisfies the row oracle and the model does
-            # not, the code has been repaired there and the (stale) model is the one that is wrong: not a mismatch
-            # of interest.  Every other difference is reported.
-            try:
-                s_real, s_model = check_op(case, real), check_op(case, model_as_real(case, rep))
-            except Exception:  # noqa: BLE001
-                s_real = s_model = ("?",)
-            if s_real is None and s_model is not None:
-                bump(out, "model_stale_where_code_conforms_to_spec", case["op"])
-                continue
-            if s_real is not None and len(s_real) == 4:
-                # the implementation does not do what the row oracle says: that is a violation of the property by the
-                # real code (reported as such, with this input as replay), whatever the model says
-                corr_spec[s_real[3]] += 1
-                bump(out, "corr_found_spec_failure", s_real[3])
-                if corr_spec[s_real[3]] <= 2:
-                    add_failure(out, "spec", s_real[0], dict(kind="op", case=case), s_real[1], s_real[2], confirmed=True, sig=s_real[3])
-                continue
+            # The model mirrors the code as it is now, including the behaviour of the open findings (index column
+            # first in `table[:, columns]`): every difference is a correspondence mismatch.  Violations of the row
+            # oracle by the real code are found and reported by spec_check, independently of the model.
             add_failure(out, "corr", d[0], case, d[1], d[2], confirmed=False)
             continue
         if "err" in real or real.get("rows") or real.get("counts") or real.get("values"):
